@@ -182,8 +182,14 @@ def drive_text(kind, blob, cuts, path):
     return out
 
 
-def drive_trr(blob, cuts, path, meta):
+def drive_trr(blob, cuts, path, meta, mode=("sleep", False)):
+    """mode = (when the writer's clock ticks, exit together with the last
+    write).  The writer is an independent process: it may write, and exit,
+    between ANY two operations of the reader - while the reader sleeps
+    ('sleep'), or right when the reader polls it ('poll': the tick happens
+    inside poll(), before the answer), or both."""
     import infretis.classes.engines.gromacs as g
+    tick_on, exit_with_last = mode
 
     class Proc:
         def __init__(self):
@@ -192,6 +198,8 @@ def drive_trr(blob, cuts, path, meta):
             self.stdin = self.stdout = self.stderr = None
 
         def poll(self):
+            if tick_on in ("poll", "both") and state.get("armed"):
+                advance()
             return self.rc
 
         def wait(self, timeout=None):
@@ -210,13 +218,16 @@ def drive_trr(blob, cuts, path, meta):
                 fh.write(blob[state["pos"]:c])
                 fh.flush()
                 state["pos"] = c
+            if exit_with_last and state["pos"] == len(blob):
+                proc.rc = 0
+                proc.returncode = 0
             return
         # file complete: the program exits after a few more polls
         state["sleeps_after_done"] += 1
         if state["sleeps_after_done"] == 3:
             proc.rc = 0
             proc.returncode = 0
-        if state["sleeps_after_done"] > 40:
+        if state["sleeps_after_done"] > (40 if tick_on == "sleep" else 200):
             raise Hang("reader keeps sleeping although the file is complete "
                        "and the program has exited")
 
@@ -229,7 +240,9 @@ def drive_trr(blob, cuts, path, meta):
     runner.stop_read = False
     runner.bytes_read = 0
     old_sleep = g.sleep
-    g.sleep = lambda s: advance()
+    g.sleep = (lambda s: advance()) if tick_on in ("sleep", "both") else \
+        (lambda s: None)
+    state["armed"] = True
     out = []
     try:
         it = runner.get_gromacs_frames()
@@ -254,6 +267,10 @@ def drive_trr(blob, cuts, path, meta):
         runner.running = None
         fh.close()
     return out
+
+
+TRR_MODES = [("sleep", False), ("poll", True), ("both", False),
+             ("sleep", True), ("poll", False), ("both", True)]
 
 
 def judge(kind, log, ends, frames):
@@ -353,7 +370,10 @@ def work(job, scratch):
             inside = any(c not in ends and 0 < c < L for c in cuts)
             try:
                 if kind == "trr":
-                    log = drive_trr(blob, cuts, path, meta)
+                    mode = TRR_MODES[res["n"] % len(TRR_MODES)]
+                    ev("trr_mode_%s%s" % (mode[0], "_exit_with_last_write"
+                                          if mode[1] else ""))
+                    log = drive_trr(blob, cuts, path, meta, mode)
                 else:
                     log = drive_text(kind, blob, cuts, path)
                 verdict = judge(kind, log, ends, frames)
